@@ -74,6 +74,15 @@ OPS = [  # (name, regex, replacement)
 def code_lines(path):
     """indices of lines that are library code: not comments / attributes / doc, and not inside #[cfg(test)] items"""
     lines = open(path).read().split("\n")
+    # lines inside /* ... */ block comments are not code
+    in_block = set()
+    depth = 0
+    for idx, l in enumerate(lines):
+        if depth > 0:
+            in_block.add(idx)
+        depth += l.count("/*") - l.count("*/")
+        if depth > 0 and "/*" in l and not l.strip().startswith("/*"):
+            pass
     ok = []
     i = 0
     n = len(lines)
@@ -94,7 +103,7 @@ def code_lines(path):
                 if (seen and depth <= 0) or (not seen and t.rstrip().endswith(";")):
                     break
             continue
-        if s and not s.startswith("//") and not s.startswith("#[") and not s.startswith("#!") and "assert" not in s \
+        if i not in in_block and s and not s.startswith("/*") and not s.startswith("//") and not s.startswith("#[") and not s.startswith("#!") and "assert" not in s \
                 and not s.startswith("use ") and "doc::" not in s and "#[doc" not in s:
             ok.append(i)
         i += 1
